@@ -2,6 +2,7 @@
   C09 — load-file text round-trips through the loader and the assembler (property theorems).
 -/
 import Gmars.Model.Load
+import Gmars.Proofs.LoadLayout
 import Gmars.Spec.LoadText
 import Gmars.Proofs.RoundTrip
 import Gmars.Proofs.AsmPrint
@@ -84,5 +85,38 @@ theorem asm_print (cfg : Config) (code : List Instr) (start : Nat)
   `Props.C03.assemble_meaning_partial` covers spacing, blank and comment lines for the assembler) —
   checked on every run by the `load` domain, which feeds each text to both readers.
 -/
+
+open LoadLayout in
+/-- `load_print_any_layout` — layout-only variations do not change what the load-file reader
+    reads: for every warrior printed in the canonical layout and EVERY layout perturbation `L` of
+    that text — any mixture of upper and lower case in mnemonics, modifiers and `ORG`/`END`, any
+    runs of blanks and tabs between the fields, a trailing `;comment` on any line, `\n` or
+    `\r\n` line ends, any number of blank, white-space-only and full-line comment lines before,
+    between and after the lines, with or without a newline after the last line — the reader
+    returns exactly the same instructions and entry point (both dialects). -/
+theorem load_print_any_layout (cfg : Config) (L : Layout) (start : Nat)
+    (hok : L.ok cfg.coreSize (cfg.mode == .icws88)) (hplain : L.plain)
+    (hM : cfg.coreSize.toNat < 2 ^ 63) (hstart : start < L.lines.length) (hs : start < 2 ^ 31) :
+    parseLoadFile cfg (L.render (cfg.mode == .icws88) start) =
+      .ok (some { name := "Unknown", author := "Anonymous", strategy := "",
+                  code := (L.lines.map (·.instr)).toArray, start := (start : Int) }) :=
+  LoadLayout.load_print_any_layout cfg L start hok hplain hM hstart hs
+
+open LoadLayout in
+/-- with metadata comment lines (`;name`, `;author`, `;strategy`) among the fillers: code and
+    entry point are still those read from the unperturbed canonical text -/
+theorem load_layout_agrees (cfg : Config) (L : Layout) (start : Nat)
+    (hok : L.ok cfg.coreSize (cfg.mode == .icws88)) (hM : cfg.coreSize.toNat < 2 ^ 63)
+    (hstart : start < L.lines.length) (hs : start < 2 ^ 31) :
+    ∃ w w0, parseLoadFile cfg (L.render (cfg.mode == .icws88) start) = .ok (some w) ∧
+      parseLoadFile cfg (Spec.printLoad (cfg.mode == .icws88) (L.lines.map (·.instr)) start) =
+        .ok (some w0) ∧ w.code = w0.code ∧ w.start = w0.start :=
+  LoadLayout.load_layout_agrees cfg L start hok hM hstart hs
+
+/-- the unperturbed layout renders to the canonical text -/
+theorem layout_canonical (legacy : Bool) (code : List Instr) (start : Nat) :
+    (LoadLayout.Layout.canon code).render legacy start = Spec.printLoad legacy code start :=
+  LoadLayout.render_canonical legacy code start
+
 
 end Gmars.Props.C09
